@@ -45,3 +45,7 @@ add("C11",
 add("C12",
     "LP!OptTruth: optimal (feasible primal point attaining v and an exact box-free dual certificate that obj.x <= v), unbounded (feasible point and recession ray with positive objective) or infeasible (Farkas), each checked by TLC; the recorded answer of optimize / get_variable_bounds / TermList.optimize must be the value within 1e-6 relative, None, or ValueError accordingly.",
     _LP_NOTE, "TLC trace validation against LP.tla; optimality / unboundedness / infeasibility certificates", "DESIGN.md 6/C12")
+add("C13",
+    "spec/Session.tla is pacti as a state machine: a pool of values and one action per public operation (18 operations with their typing); TLC enumerates all well-typed histories of length 2 and, with -simulate, emits random histories of length 24 whose results are fed back into the pool. Each history is replayed into the real library; every step records deep snapshots of all pool members, argument lists and module-level state before and after, the snapshots after the result has been scrambled in place, and the result of re-executing the step in a pristine forked interpreter. spec/TraceSession.tla (state = the history seen so far) judges OperandsUnchanged, NoAliasing, FreshAgrees and, across the session, that equal calls give equal results.",
+    "Snapshots are canonical deep JSON (variables of a term sorted by name, floats by repr); plain constructors are containers, not operations; IoContract.simplify() (in-place by design) is not part of the alphabet. Trusted: sessdrv.py (snapshot / scramble / pristine replay) and TLC.",
+    "TLC-generated histories (Session.tla, -simulate) replayed into the library; TLC trace validation of per-step observation records against the purity laws", "DESIGN.md 3.9, 6/C13")
